@@ -16,7 +16,8 @@
    has not appended yet), so when all requests are finished the two stores hold exactly the same
    clients with exactly the same records. *)
 From TSS Require Import AStore Http Conc proofs.Sim proofs.ListAux proofs.Chain proofs.Steps proofs.Inv proofs.Hist
-  proofs.UrgencyArith proofs.HttpProps proofs.HttpReach proofs.Atomic proofs.NonInterf proofs.ConcLib proofs.ConcHttp.
+  proofs.UrgencyArith proofs.HttpProps proofs.HttpReach proofs.Atomic proofs.NonInterf proofs.ConcLib proofs.ConcHttp
+  proofs.Refine proofs.RefineInMem proofs.Cas proofs.HttpLib.
 From Coq Require Import Arith Lia.
 Open Scope N_scope.
 
@@ -376,6 +377,59 @@ Definition window_free_at := wfree_at AStoreB.
 Lemma empty_holds_nothing a c : a_cl a c = Some empty_cs -> holds_nothing AStoreB a c.
 Proof. intros H. unfold holds_nothing. cbn. rewrite H. reflexivity. Qed.
 
+(* ---- what one whole request does to the stored versions ---- *)
+Lemma hstep_vers cfg allow W a rq E c : cfg_ok cfg -> Inv W a -> hfresh_ok W rq E ->
+  vers_a (snd (hstep_a cfg allow a rq E)) c =
+  vers_a a c ++ accepted c (lib_of_req allow rq E) (fst (arun cfg a (lib_of_req allow rq E))).
+Proof.
+  intros Hcfg HI Hf. destruct (hstep_lib cfg allow W a rq E Hcfg HI Hf) as [Hs _]. rewrite Hs.
+  assert (Hor : oracle_ok_from W (lib_of_req allow rq E)).
+  { pose proof (lib_oracle allow [(rq, E)] W W (fun i H => H)) as Hl. cbn [lib_of horacle_ok_from] in Hl.
+    rewrite app_nil_r in Hl. apply Hl. split; [exact Hf|exact I]. }
+  apply (vers_hist cfg W a _ c HI Hor).
+Qed.
+
+Lemma hstep_vers_mono cfg allow W a rq E c v : cfg_ok cfg -> Inv W a -> hfresh_ok W rq E ->
+  In v (vers_a a c) -> In v (vers_a (snd (hstep_a cfg allow a rq E)) c).
+Proof. intros Hcfg HI Hf Hin. rewrite (hstep_vers cfg allow W a rq E c Hcfg HI Hf). apply in_app_iff. left. exact Hin. Qed.
+
+(* an upload answered 200 is stored, with the id the generator supplied, the submitted parent and payload *)
+Lemma hstep_av_200 cfg allow W a E cl p cs : cfg_ok cfg -> Inv W a ->
+  let rq := mkReq MPost (PAddVersion (IdOk p)) (COk cl) CTHistory cs in
+  hfresh_ok W rq E -> client_id_header allow (COk cl) = inl cl -> body_refused cs = false ->
+  rs_status (fst (hstep_a cfg allow a rq E)) = 200 ->
+  In (mkVersion (e_fresh E) p (body_of cs)) (vers_a (snd (hstep_a cfg allow a rq E)) cl).
+Proof.
+  intros Hcfg HI rq Hf Hc Hb Hst.
+  rewrite (hstep_vers cfg allow W a rq E cl Hcfg HI Hf). apply in_app_iff. right.
+  destruct (hstep_lib cfg allow W a rq E Hcfg HI Hf) as [_ Hr]. rewrite Hr in Hst. clear Hr.
+  assert (Hl : lib_of_req allow rq E = [(OEnsure cl, Hist.noenv); (OAddVersion cl p (body_of cs), E)]).
+  { unfold lib_of_req, rq. cbn [rq_cid rq_method rq_path rq_ctype rq_chunks]. rewrite Hc, Hb. reflexivity. }
+  rewrite Hl in *. rewrite arun_cons in *. cbn [fst snd] in *.
+  assert (Hok : a_ok a = true) by (destruct HI; assumption).
+  rewrite ensure_step in * by exact Hok. cbn [fst snd] in *.
+  set (a1 := match a_cl a cl with Some _ => a | None => a_set a cl (mkCS nil_id None []) (a_allids a) end) in *.
+  assert (HI1 : Inv W a1).
+  { pose proof (inv_ensure cfg W a cl E HI) as H. rewrite ensure_step in H by exact Hok. exact H. }
+  assert (Hx : exists x, a_cl a1 cl = Some x).
+  { unfold a1. destruct (a_cl a cl) as [x|] eqn:Hcl; [exists x; exact Hcl|]. eexists. rewrite a_set_lookup, N.eqb_refl. reflexivity. }
+  destruct Hx as [x Hx].
+  assert (Hfo : fresh_ok W (OAddVersion cl p (body_of cs)) E) by exact Hf.
+  destruct (cas_step cfg W a1 cl x p (body_of cs) E HI1 Hx Hfo) as [Hacc Hrej].
+  rewrite arun_one in *. cbn [fst snd accepted acc_of app] in *.
+  destruct (classic_cas (a_vers x) p) as [Hyes|Hno].
+  - rewrite (Hacc Hyes). cbn [fst acc_of]. rewrite N.eqb_refl. left. reflexivity.
+  - exfalso. rewrite (Hrej Hno) in Hst. cbn in Hst. discriminate Hst.
+Qed.
+
+(* every upload the one-at-a-time run answered 200 is stored in the one-at-a-time store *)
+Definition av_stored (allow : option (list id)) (reqs : list (env * hreq)) (rs : list (nat * hresp)) (a : astore) : Prop :=
+  forall i E cl p cs r,
+    nth_error reqs i = Some (E, mkReq MPost (PAddVersion (IdOk p)) (COk cl) CTHistory cs) ->
+    client_id_header allow (COk cl) = inl cl -> body_refused cs = false ->
+    resp_in hresp rs i = Some r -> rs_status r = 200 ->
+    In (mkVersion (e_fresh E) p (body_of cs)) (vers_a a cl).
+
 Definition linv (Rr : resp_rel) (cfg : config) (allow : option (list id)) (reqs : list (env * hreq)) (a0 : astore)
   (c : sys AStoreB hresp) (done : list nat) : Prop :=
   let sr := seq_run AStoreB hresp a0 (handlers cfg allow reqs) done in
@@ -386,7 +440,8 @@ Definition linv (Rr : resp_rel) (cfg : config) (allow : option (list id)) (reqs 
        nth_error (th c) i = Some (pstate cfg allow (fst er) (snd er) ph) /\
        pok Rr cfg allow (all_mentioned reqs) W (db c) (fst er) (snd er) (resp_in hresp (fst sr) i) ph) /\
     (forall cc, a_cl (snd sr) cc = None -> a_cl (db c) cc <> None ->
-       exists j p d, nth_error phs j = Some (PhRetry cc p d)).
+       exists j p d, nth_error phs j = Some (PhRetry cc p d)) /\
+    av_stored allow reqs (fst sr) (snd sr).
 
 Lemma nth_handlers cfg allow reqs i er : nth_error reqs i = Some er ->
   nth_error (handlers cfg allow reqs) i = Some (fst er, http_handler cfg allow (snd er)).
@@ -484,7 +539,7 @@ Lemma lin_step (Rr : resp_rel) cfg allow U0 reqs a0 c done i c' :
   window_free_at reqs c i \/ admits_window Rr allow ->
   linv Rr cfg allow reqs a0 c' (next_done c' i done).
 Proof.
-  intros Hrefl Hcfg [Hnd Hfr] (Hown & Hlen & Hndd & W & phs & Hlp & HI & HI' & HG & He & Hth & Hex) Hst Hwin.
+  intros Hrefl Hcfg [Hnd Hfr] (Hown & Hlen & Hndd & W & phs & Hlp & HI & HI' & HG & He & Hth & Hex & Hsto) Hst Hwin.
   set (H := handlers cfg allow reqs) in *.
   set (G := all_mentioned reqs) in *.
   set (sr := seq_run AStoreB hresp a0 H done) in *.
@@ -514,7 +569,7 @@ Proof.
   { intros a1 ph' HI1 He1 Hpres Hpk' Hnr Hnew. unfold linv. fold H. fold sr. cbn [owner th db].
     split; [reflexivity|]. split; [rewrite len_upd; exact Hlen|]. split; [exact Hndd|].
     exists W, (upd phs i ph'). split; [rewrite len_upd; exact Hlp|]. split; [exact HI1|]. split; [exact HI'|].
-    split; [exact HG|]. split; [exact He1|]. split.
+    split; [exact HG|]. split; [exact He1|]. split; [|split; [|exact Hsto]].
     - intros j ej phj Hrj Hpj. destruct (Nat.eq_dec i j) as [Heq|Hne].
       + subst j. rewrite nth_upd_eq in Hpj by lia. inversion Hpj; subst phj.
         rewrite Hri in Hrj. inversion Hrj; subst ej. cbn [fst snd].
@@ -555,7 +610,7 @@ Proof.
     exists (hused_step W rq E), (upd phs i ph'). split; [rewrite len_upd; exact Hlp|].
     split; [exact HIn|]. split; [exact HIn'|].
     split; [intros x Hx; unfold hused_step; right; apply in_app_iff; right; apply HG; exact Hx|].
-    split; [apply (ext_after_ext _ _ _ _ Hea)|]. split.
+    split; [apply (ext_after_ext _ _ _ _ Hea)|]. split; [|split].
     - intros j ej phj Hrj Hpj. destruct (Nat.eq_dec i j) as [Heq|Hne].
       + subst j. rewrite nth_upd_eq in Hpj by lia. inversion Hpj; subst phj.
         rewrite Hri in Hrj. inversion Hrj; subst ej. cbn [fst snd].
@@ -572,7 +627,16 @@ Proof.
       destruct (Hex cc H1 Hold) as (j & p & d & Hj). exists j, p, d.
       destruct (Nat.eq_dec i j) as [Heqj|Hne]; [|rewrite nth_upd_ne by exact Hne; exact Hj].
       subst j. rewrite Hpi in Hj. inversion Hj as [Hphe].
-      destruct (Howner cc p d Hphe) as [Hac Hsd]. specialize (Hav Hsd cc Hac). exfalso. apply Hn2. rewrite <- Hav. exact Hn1. }
+      destruct (Howner cc p d Hphe) as [Hac Hsd]. specialize (Hav Hsd cc Hac). exfalso. apply Hn2. rewrite <- Hav. exact Hn1.
+    - (* uploads answered 200 by the one-at-a-time run stay stored, and the new one is stored *)
+      intros j Ej clj pj csj rj Hrj Hcj Hbj Hresp Hstj.
+      destruct (Nat.eq_dec i j) as [Heqj|Hne].
+      + subst j. rewrite Hri in Hrj. inversion Hrj; subst E rq.
+        rewrite (resp_in_app_new hresp _ i _ Hro) in Hresp. inversion Hresp; subst rj.
+        apply (hstep_av_200 cfg allow W (snd sr) Ej clj pj csj Hcfg HI' Hfo Hcj Hbj Hstj).
+      + rewrite (resp_in_app_other hresp) in Hresp by exact (not_eq_sym Hne).
+        apply (hstep_vers_mono cfg allow W (snd sr) rq E clj _ Hcfg HI' Hfo).
+        apply (Hsto j Ej clj pj csj rj Hrj Hcj Hbj Hresp Hstj). }
   assert (Hin_done : forall r, resp_in hresp (fst sr) i = Some r -> In i done).
   { intros r Hr. destruct (in_dec Nat.eq_dec i done) as [Hin|Hnin]; [exact Hin|].
     pose proof (resp_in_not_done AStoreB hresp a0 H done i Hnin) as Hx. fold sr in Hx. congruence. }
@@ -688,13 +752,14 @@ Proof.
   assert (HIW : Inv (all_mentioned reqs ++ U0) a0) by (eapply Inv_mono; [|exact HI]; intros x Hx; apply in_app_iff; auto).
   exists (all_mentioned reqs ++ U0), (map (fun _ => PhStart) reqs).
   split; [apply map_length|]. split; [exact HIW|]. split; [exact HIW|].
-  split; [intros x Hx; apply in_app_iff; auto|]. split; [apply ext_refl|]. split.
+  split; [intros x Hx; apply in_app_iff; auto|]. split; [apply ext_refl|]. split; [|split].
   - intros i er ph Hri Hpi. rewrite nth_error_map, Hri in Hpi. cbn in Hpi. inversion Hpi; subst ph.
     unfold handlers. rewrite !nth_error_map, Hri. cbn [option_map fst snd pstate pok]. split; [reflexivity|].
     split; [|reflexivity].
     destruct (Hfr er (nth_error_In _ _ Hri)) as (Hn & HG & HU).
     intros [Hx|Hx]; [contradiction|]. apply in_app_iff in Hx. tauto.
   - intros cc H1 H2. contradiction.
+  - intros i E cl p cs r _ _ _ Hr _. discriminate Hr.
 Qed.
 
 Lemma lin_run (Rr : resp_rel) cfg allow U0 reqs a0 sch : (forall rq r, Rr rq r r) -> cfg_ok cfg -> fresh_distinct U0 reqs ->
@@ -723,7 +788,7 @@ Lemma linv_reading (Rr : resp_rel) cfg allow reqs a0 c done : linv Rr cfg allow 
   ext (snd sr) (db c) /\ a_ok (snd sr) = true /\ a_ok (db c) = true /\
   (all_done c -> forall cc, a_cl (snd sr) cc = a_cl (db c) cc).
 Proof.
-  intros (Hown & Hlen & Hnd & W & phs & Hlp & HI & HI' & HG & He & Hth & Hex). cbv zeta.
+  intros (Hown & Hlen & Hnd & W & phs & Hlp & HI & HI' & HG & He & Hth & Hex & Hsto). cbv zeta.
   set (sr := seq_run AStoreB hresp a0 (handlers cfg allow reqs) done) in *.
   split; [exact Hnd|]. split; [|split; [exact He|split; [destruct HI'; assumption|split; [destruct HI; assumption|]]]].
   - intros i r Hi.
@@ -1321,4 +1386,114 @@ Proof.
   destruct (txn_atomic_quiescent (bk_backend k) hresp sch s0 (init_wf _ _ d0 (handlers cfg allow reqs)) eq_refl Hq) as [Hdb Hth].
   pose proof (lin_coarse_window k cfg allow U0 a0 d0 reqs (csched (bk_backend k) hresp s0 sch) Hcfg HI HR Hfd) as Hl. fold s0 in Hl.
   unfold linearized_g in *. unfold all_done in *. rewrite Hdb, Hth. exact Hl.
+Qed.
+
+(* ---- no accepted version is orphaned, no parent is given two children — under EVERY schedule ----
+   (the property's "in particular" clause).  When all requests have finished: every upload that was
+   answered 200 — whatever overlapped it, new clients and the F3 window included — is stored in its
+   client's chain with the id it was given, the parent and the payload it submitted, and it is THE child
+   of its parent. *)
+Lemma linv_stored Rr cfg allow reqs a0 c done : linv Rr cfg allow reqs a0 c done ->
+  av_stored allow reqs (fst (seq_run AStoreB hresp a0 (handlers cfg allow reqs) done))
+                       (snd (seq_run AStoreB hresp a0 (handlers cfg allow reqs) done)).
+Proof. intros (_ & _ & _ & W & phs & _ & _ & _ & _ & _ & _ & _ & Hsto). exact Hsto. Qed.
+
+Lemma linv_inv Rr cfg allow reqs a0 c done : linv Rr cfg allow reqs a0 c done -> exists W, Inv W (db c).
+Proof. intros (_ & _ & _ & W & phs & _ & HIc & _). exists W. exact HIc. Qed.
+
+Definition is_av (rq : hreq) (cl p : id) (cs : list chunk) : Prop :=
+  rq = mkReq MPost (PAddVersion (IdOk p)) (COk cl) CTHistory cs.
+
+Theorem accepted_is_stored_a cfg allow U0 a0 reqs sch : cfg_ok cfg -> Inv U0 a0 -> fresh_distinct U0 reqs ->
+  let c := crun AStoreB hresp (init_sys AStoreB hresp a0 (handlers cfg allow reqs)) sch in
+  all_done c -> a_ok (db c) = true /\
+  forall i E rq cl p cs r, nth_error reqs i = Some (E, rq) -> is_av rq cl p cs ->
+    client_id_header allow (COk cl) = inl cl -> body_refused cs = false ->
+    nth_error (th c) i = Some (TDone r) -> rs_status r = 200 ->
+    exists x, a_cl (db c) cl = Some x /\ In (mkVersion (e_fresh E) p (body_of cs)) (a_vers x) /\
+              by_parent p (a_vers x) = Some (mkVersion (e_fresh E) p (body_of cs)).
+Proof.
+  intros Hcfg HI Hfd c Hall.
+  pose proof (lin_abstract (win_rel allow) cfg allow U0 a0 reqs sch (win_refl allow) Hcfg HI Hfd (or_intror (win_admits allow))) as Hl.
+  cbv zeta in Hl. fold c in Hl.
+  set (done := lin_order (init_sys AStoreB hresp a0 (handlers cfg allow reqs)) sch []) in *.
+  pose proof (linv_stored _ _ _ _ _ _ _ Hl) as Hsto.
+  destruct (linv_inv _ _ _ _ _ _ _ Hl) as [W HIc].
+  destruct (linv_reading _ _ _ _ _ _ _ Hl) as (_ & Hresp & _ & _ & Hokc & Heqall).
+  split; [exact Hokc|].
+  intros i E rq cl p cs r Hri Hav Hc Hb Hi Hst. unfold is_av in Hav. subst rq.
+  destruct (Hresp i r Hi) as (_ & er & r0 & Her & Hr0 & Hrel). rewrite Hri in Her. inversion Her; subst er. cbn [snd] in Hrel.
+  assert (r0 = r).
+  { destruct Hrel as [He|(_ & Has & _)]; [exact He|]. exfalso. apply Has. reflexivity. }
+  subst r0.
+  pose proof (Hsto i E cl p cs r Hri Hc Hb Hr0 Hst) as Hin.
+  pose proof (Heqall Hall cl) as Hcl. unfold vers_a in Hin. rewrite Hcl in Hin.
+  destruct (a_cl (db c) cl) as [x|] eqn:Hx; [|contradiction].
+  exists x. split; [reflexivity|]. split; [exact Hin|].
+  destruct HIc as (_ & Hclinv & _). pose proof (Hclinv cl x Hx) as Hci.
+  apply (by_parent_unique (a_vers x) (mkVersion (e_fresh E) p (body_of cs))); [|exact Hin].
+  apply (chain_parents_nodup (base_of (a_vers x))); [apply (ci_chain _ _ Hci)|apply (ci_nodup _ _ Hci)].
+Qed.
+
+(* two uploads on one parent of one client are never both answered 200 *)
+Theorem never_both_accepted_a cfg allow U0 a0 reqs sch : cfg_ok cfg -> Inv U0 a0 -> fresh_distinct U0 reqs ->
+  let c := crun AStoreB hresp (init_sys AStoreB hresp a0 (handlers cfg allow reqs)) sch in
+  all_done c ->
+  forall i j Ei Ej rqi rqj cl p csi csj ri rj, i <> j ->
+    nth_error reqs i = Some (Ei, rqi) -> nth_error reqs j = Some (Ej, rqj) -> is_av rqi cl p csi -> is_av rqj cl p csj ->
+    client_id_header allow (COk cl) = inl cl -> body_refused csi = false -> body_refused csj = false ->
+    nth_error (th c) i = Some (TDone ri) -> nth_error (th c) j = Some (TDone rj) ->
+    ~ (rs_status ri = 200 /\ rs_status rj = 200).
+Proof.
+  intros Hcfg HI Hfd c Hall i j Ei Ej rqi rqj cl p csi csj ri rj Hne Hri Hrj Havi Havj Hc Hbi Hbj Hi Hj [Hsi Hsj].
+  destruct (accepted_is_stored_a cfg allow U0 a0 reqs sch Hcfg HI Hfd Hall) as [_ Hacc]. fold c in Hacc.
+  destruct (Hacc i Ei rqi cl p csi ri Hri Havi Hc Hbi Hi Hsi) as (x & Hx & _ & Hbpi).
+  destruct (Hacc j Ej rqj cl p csj rj Hrj Havj Hc Hbj Hj Hsj) as (x' & Hx' & _ & Hbpj).
+  rewrite Hx in Hx'. inversion Hx'; subst x'. rewrite Hbpi in Hbpj. inversion Hbpj as [Hfr].
+  destruct Hfd as [Hnd _].
+  apply (nodup_fresh_ne reqs i j (Ei, rqi) (Ej, rqj) Hnd Hri Hrj Hne). cbn [fst]. exact Hfr.
+Qed.
+
+(* the same on a concrete backend under every fine-grained schedule (one step per storage call) *)
+Theorem accepted_is_stored k cfg allow U0 a0 d0 reqs sch : cfg_ok cfg -> Inv U0 a0 -> bk_rel k a0 d0 -> fresh_distinct U0 reqs ->
+  let s0 := init_sys (bk_backend k) hresp d0 (handlers cfg allow reqs) in
+  let f := frun (bk_backend k) hresp s0 sch in
+  owner f = None -> all_done f ->
+  exists a, bk_rel k a (db f) /\ a_ok a = true /\
+    (forall i E rq cl p cs r, nth_error reqs i = Some (E, rq) -> is_av rq cl p cs ->
+       client_id_header allow (COk cl) = inl cl -> body_refused cs = false ->
+       nth_error (th f) i = Some (TDone r) -> rs_status r = 200 ->
+       exists x, a_cl a cl = Some x /\ In (mkVersion (e_fresh E) p (body_of cs)) (a_vers x) /\
+                 by_parent p (a_vers x) = Some (mkVersion (e_fresh E) p (body_of cs))) /\
+    (forall i j Ei Ej rqi rqj cl p csi csj ri rj, i <> j ->
+       nth_error reqs i = Some (Ei, rqi) -> nth_error reqs j = Some (Ej, rqj) -> is_av rqi cl p csi -> is_av rqj cl p csj ->
+       client_id_header allow (COk cl) = inl cl -> body_refused csi = false -> body_refused csj = false ->
+       nth_error (th f) i = Some (TDone ri) -> nth_error (th f) j = Some (TDone rj) ->
+       ~ (rs_status ri = 200 /\ rs_status rj = 200)).
+Proof.
+  intros Hcfg HI HR Hfd s0 f Hq Hall.
+  destruct (txn_atomic_quiescent (bk_backend k) hresp sch s0 (init_wf _ _ d0 (handlers cfg allow reqs)) eq_refl Hq) as [Hdbf Hthf].
+  fold f in Hdbf, Hthf.
+  set (sch' := csched (bk_backend k) hresp s0 sch) in *.
+  set (H := handlers cfg allow reqs) in *.
+  set (ca0 := init_sys AStoreB hresp a0 H).
+  assert (Hrel0 : bk_rel k (db ca0) (db s0) /\ Forall2 (trel (bk_backend k) hresp) (th ca0) (th s0))
+    by (split; [exact HR|apply init_trel]).
+  assert (Hok : a_ok (db (crun AStoreB hresp ca0 sch')) = true).
+  { pose proof (cinv_run cfg allow U0 reqs sch' Hcfg Hfd ca0 (cinv_init cfg allow U0 a0 reqs HI Hfd)) as Hc.
+    destruct Hc as (_ & _ & W & (Hok & _) & _). exact Hok. }
+  destruct (bk_crun_sim k hresp sch' ca0 s0 Hrel0 Hok) as [Hdb Hth].
+  rewrite <- Hdbf in Hdb. rewrite <- Hthf in Hth.
+  assert (Hdone : forall i r, nth_error (th f) i = Some (TDone r) -> nth_error (th (crun AStoreB hresp ca0 sch')) i = Some (TDone r)).
+  { intros i r Hi. pose proof (forall2_nth (trel (bk_backend k) hresp) _ _ i Hth) as Hn. rewrite Hi in Hn.
+    destruct (nth_error (th (crun AStoreB hresp ca0 sch')) i) as [ta|]; [|contradiction]. inversion Hn; subst. reflexivity. }
+  assert (Halla : all_done (crun AStoreB hresp ca0 sch')).
+  { intros i t Hi. pose proof (forall2_nth (trel (bk_backend k) hresp) _ _ i Hth) as Hn. rewrite Hi in Hn.
+    destruct (nth_error (th f) i) as [tb|] eqn:Htb; [|contradiction].
+    destruct (Hall i tb Htb) as [r Hr]. subst tb. inversion Hn; subst. eauto. }
+  destruct (accepted_is_stored_a cfg allow U0 a0 reqs sch' Hcfg HI Hfd Halla) as [Hoka Hacc].
+  exists (db (crun AStoreB hresp ca0 sch')). split; [exact Hdb|]. split; [exact Hoka|]. split.
+  - intros i E rq cl p cs r Hri Hav Hc Hb Hi Hst. apply (Hacc i E rq cl p cs r Hri Hav Hc Hb (Hdone i r Hi) Hst).
+  - intros i j Ei Ej rqi rqj cl p csi csj ri rj Hne Hri Hrj Havi Havj Hc Hbi Hbj Hi Hj.
+    apply (never_both_accepted_a cfg allow U0 a0 reqs sch' Hcfg HI Hfd Halla i j Ei Ej rqi rqj cl p csi csj ri rj Hne Hri Hrj Havi Havj Hc Hbi Hbj (Hdone i ri Hi) (Hdone j rj Hj)).
 Qed.
